@@ -35,7 +35,9 @@ def build(job):
     p = rec['prog']
     ns = p['ns']
     var = job.get('variant', 0)
-    labels = None if var % 2 == 0 else ['s%d' % k for k in range(ns)]
+    # scenario labels: positions | strings | integers that are NOT the positions (1-based): a label taken for a position
+    # (or the reverse) then names another existing scenario instead of failing
+    labels = None if var % 2 == 0 else (list(range(1, ns + 1)) if var % 4 == 3 else ['s%d' % k for k in range(ns)])
     m = dro.Model(ns) if labels is None else dro.Model(labels)
     lab = (lambda s: s) if labels is None else (lambda s: labels[s])
     z = m.rvar(2)
@@ -52,6 +54,16 @@ def build(job):
             y.adapt(z[0])
         elif p['aff'] == 'a12':
             y.adapt(z)
+        # an unrelated decision declared AFTER the adaptive one (static, or event-wise on another partition): the column
+        # arithmetic of the event-wise affine expansion must not depend on which variable happens to be declared last
+        if var % 3 == 1:
+            dummy = m.dvar()
+        elif var % 3 == 2 and ns >= 2:
+            dummy = m.dvar()
+            dummy.adapt(lab(ns - 1))
+            dummy.adapt(z[1])
+        else:
+            dummy = None
     fset = m.ambiguity()
     cen = [np.array(c, dtype=float) for c in rec['centres']]
     k = p['supp']
@@ -60,6 +72,9 @@ def build(job):
             fset[lab(s)].suppset(z == cen[s])
         elif k == 2 or k == 6:
             fset[lab(s)].suppset(z >= cen[s] - 1, z <= cen[s] + 1)
+        elif k == 8:
+            rad = np.array([s + 1.0, 1.0])
+            fset[lab(s)].suppset(z >= cen[s] - rad, z <= cen[s] + rad)
         elif k == 7:
             cons = [z >= cen[s] - 1, z <= cen[s] + 1]
             if s % 2 == 0:
@@ -101,6 +116,8 @@ def build(job):
         target.exptset(cons) if var % 3 else target.exptset(*cons)
     xb = job['XB']
     m.st(x >= -xb, x <= xb)
+    if p['form'] == 'A' and dummy is not None:
+        m.st(dummy >= 0, dummy <= 1)
     p1, p2 = rec['piece1'], rec['piece2']
     if p['form'] == 'B':
         m.minsup(E(rso.maxof(piece_expr(p1, x, z), piece_expr(p2, x, z))), fset)
@@ -349,7 +366,7 @@ def _replay(job, phase):
         out['wce'] = w
         out['wce_econ'] = wh
     else:
-        out.update(status='fail')
+        out.update(status='fail', solver_status=str(getattr(m.solution, 'status', None)))
     phase[0] = 'oracle'
     out['opt'] = true_optimum(rec, job['XB'])
     return out
